@@ -139,7 +139,7 @@ func checkC10(c C10Case) (labels []string, nontrivial bool, err error) {
 	for i, op := range c.Ops {
 		switch op.K {
 		case "W":
-			n, e := w.Write(data[off : off+op.N])
+			n, e := writeReused(w, data[off:off+op.N])
 			if e != nil || n != op.N {
 				return nil, false, fmt.Errorf("op %d Write(%d) = (%d, %v)", i, op.N, n, e)
 			}
